@@ -62,6 +62,10 @@ def _shortcut_guard(rep, ex: Explorer, mode):
         return [s, make_query()], kw
 
     paths = ex.run(qual, setup, summaries=SUMMARIES, key=f"shortcut-{mode}")
+    if mode is None:
+        # the short cut runs once per query on an operator object that answers the whole batch: a solver kept on it (or in
+        # the state) carries whatever an early return left asserted into the next query
+        kept_solver_clean(rep, site, paths)
     true_guards, n_del = [], 0
     # first pass: answers other than True that are given without the operator (positive evidence on their own)
     flagged = False
@@ -1430,6 +1434,38 @@ def solver_per_query(rep, site, paths):
                 rep.violation("STATE.solver-per-query", f"{site}:{ev.node.lineno}", f"stored solver {name!r}", "constraint objects are created per query; none is kept beyond the query on the operator or in the state",
                               extracted=f"{type(p.state.heap.get(val.oid)).__name__ if isinstance(val, Ref) else 'optimizer'} stored in {holders[tgt.oid]}", required="a fresh object per query", function=site)
     rep.ok("STATE.solver-per-query", site, "stores audited", f"no solver object is stored on the operator or in the state ({n} stores inspected)")
+
+
+def kept_solver_clean(rep, site, paths):
+    """STATE.solver-per-query on the shared short cut: a solver that is kept on the operator object or in the state beyond
+    the call must be back to its empty initial scope at every exit of the call (a return between push and pop leaves the
+    query's formulas asserted for every later query of the batch).  A solver created and dropped inside the call is of no
+    concern here."""
+    n = 0
+    for p in paths:
+        holders = {}
+        for oid, o in p.state.heap.items():
+            if isinstance(o, HObj) and "epistemic_state" in o.attrs:
+                holders[oid] = "the operator object"
+            if hasattr(o, "entries") and "belief_base" in getattr(o, "entries", {}) and "smt_solver" in o.entries:
+                holders[oid] = "the epistemic state"
+        for ev, Q in iter_events(p.events):
+            if ev.kind not in ("attr.set", "dict.set"):
+                continue
+            tgt, val = ev.data.get("obj"), ev.data.get("value")
+            if not (isinstance(tgt, Ref) and tgt.oid in holders and isinstance(val, Ref)):
+                continue
+            o = p.state.heap.get(val.oid)
+            if type(o).__name__ != "HSolver":
+                continue
+            n += 1
+            frames = [list(fr) for fr in o.frames]
+            left = len(frames) > 1 or any(frames)
+            name = ev.data.get("attr", ev.data.get("key"))
+            rep.check(not left, "STATE.solver-per-query", f"{site}:{ev.node.lineno}", f"kept solver {name!r} at the exit `{p.outcome[0]} {str(p.outcome[1])[:30]}`",
+                      "a solver kept beyond the call is empty again at every exit of the call (what one query asserted must not be in force for the next)",
+                      extracted=(f"{len(frames) - 1} scope(s) still open, {sum(len(fr) for fr in frames)} assertion(s) left; kept in {holders[tgt.oid]}" if left else "empty"), required="initial scope, no assertions", function=site)
+    rep.ok("STATE.solver-per-query", site, "kept solvers audited", f"no solver kept beyond the call leaves assertions behind ({n} kept solver(s) inspected)")
 
 
 MUTATING = ("dict.set", "list.append", "list.extend", "list.insert", "list.pop", "list.remove", "list.clear", "list.sort", "list.setitem",
